@@ -365,7 +365,11 @@ func (p *Proc) globalVar(ec *ectx, o *types.Var) Val {
 }
 
 func (p *Proc) loadBoxed(ec *ectx, o *types.Var, addr *Term) Val {
-	t := o.Type()
+	return p.loadCell(ec, o.Type(), addr)
+}
+
+// loadCell reads a value of type t from the heap cell at addr.
+func (p *Proc) loadCell(ec *ectx, t types.Type, addr *Term) Val {
 	if st, ok := t.Underlying().(*types.Struct); ok && !opaqueStruct(t) {
 		args := make([]*Term, st.NumFields())
 		for i := range args {
